@@ -21,6 +21,7 @@ import z3
 from . import symjax as sj
 
 REPLAY_DIR = "/verif/replays"
+CROSS_PER_UNIT = 2  # obligations per unit that are re-decided by cvc5
 
 
 class HarnessError(Exception):
@@ -105,6 +106,37 @@ class Conc:
 
     def run(self, f, *args, **kwargs):
         return f(*args, **kwargs)
+
+
+def cvc5_verdict(constraints, tlimit_ms=15000):
+    """second solver: the same constraint set (tags stripped) is printed as SMT-LIB2 by z3 and decided by
+    cvc5 (python wheel); returns 'unsat' / 'sat' / 'unknown' / 'error: ...'"""
+    try:
+        import cvc5
+
+        s = z3.Solver()
+        for c in constraints:
+            if c is True:
+                continue
+            s.add(sj.strip_tags(c) if isinstance(c, z3.ExprRef) else z3.BoolVal(bool(c)))
+        text = "(set-logic ALL)\n" + s.to_smt2()
+        tm = cvc5.TermManager()
+        slv = cvc5.Solver(tm)
+        slv.setOption("tlimit-per", str(int(tlimit_ms)))
+        parser = cvc5.InputParser(slv)
+        parser.setStringInput(cvc5.InputLanguage.SMT_LIB_2_6, text, "obligation")
+        sm = parser.getSymbolManager()
+        res = "unknown"
+        while True:
+            cmd = parser.nextCommand()
+            if cmd.isNull():
+                break
+            out = cmd.invoke(slv, sm)
+            if cmd.getCommandName() == "check-sat":
+                res = str(out).strip()
+        return res if res in ("sat", "unsat", "unknown") else "unknown"
+    except Exception as e:  # noqa: BLE001
+        return f"error: {type(e).__name__}: {str(e)[:100]}"
 
 
 def linear_abstraction(constraints):
@@ -250,6 +282,7 @@ class Recorder:
         self.notes = []
         self._claims = set()
         self.t0 = time.time()
+        self.cross = {"checked": 0, "agree": 0, "cvc5_unknown": 0, "disagree": 0}  # "diff two solvers"
         self.symbols = {}  # name -> z3 const; set by the unit (Session.symbols)
         self.replay_target = None  # (obligation name, values) when re-executing a stored replay
         self.replay_outcome = None
@@ -343,8 +376,9 @@ class Recorder:
         ob = {"name": name, "unit": self.unit}
         if info:
             ob["info"] = info
+        claim_t = None
         if isinstance(claim, (bool, np.bool_)):
-            claim_t = None
+            claim_t = False
             if claim:
                 ob["verdict"] = "const"
                 self.obligations.append(ob)
@@ -377,6 +411,18 @@ class Recorder:
         if r == "unsat":
             ob["verdict"] = "unsat"
             self.obligations.append(ob)
+            # second solver on a sample of the solver-decided obligations of this unit
+            if claim_t is not False and isinstance(claim, z3.ExprRef) and self.cross["checked"] < CROSS_PER_UNIT:
+                self.cross["checked"] += 1
+                v = cvc5_verdict(assume + [z3.Not(claim)])
+                ob["cvc5"] = v
+                if v == "unsat":
+                    self.cross["agree"] += 1
+                elif v == "sat":
+                    self.cross["disagree"] += 1
+                    self.errors.append(f"{self.unit}/{name}: z3 says unsat, cvc5 says sat (solver disagreement)")
+                else:
+                    self.cross["cvc5_unknown"] += 1
             return True
         if r == "sat":
             ob["verdict"] = "sat"
@@ -523,6 +569,7 @@ class Recorder:
             "twins": {"checked": len(self.twins), "sat": sum(1 for r, _ in self.twins.values() if r == "sat")},
             "translator_validation": {"points": self.tv_points, "max_rel_dev": self.tv_maxdev},
             "paths": self.paths,
+            "cross_solver": dict(self.cross),
             "violations": self.violations,
             "errors": self.errors,
             "functions": sorted(self.functions),
